@@ -29,6 +29,31 @@ def base_atoms(poly, known=()):
     return out
 
 
+def flatten_floors(poly, known=()):
+    """Replace every floor[...] atom (not listed in `known`) by the form under
+    it: coefficients are compared on the exact value, truncation is judged
+    separately (R-EXACT / want_floor).  Returns (flattened poly, list of the
+    inner forms that were truncated)."""
+    truncated = []
+    out = Poly({}, poly.rounds, poly.isfloat, rational=poly.rational)
+    changed = False
+    for m, c in poly.terms.items():
+        term = Poly({(): c})
+        for a, e in m:
+            inner = inner_of(a) if a.startswith("floor[") and a not in known else None
+            if inner is not None and e == 1:
+                flat, more = flatten_floors(inner, known)
+                truncated.append(inner)
+                truncated.extend(more)
+                term = term.mul(flat)
+                changed = True
+            else:
+                term = term.mul(Poly({((a, e),): 1}))
+        out = out.add(term)
+    out.rounds, out.isfloat = poly.rounds, poly.isfloat
+    return (out if changed else poly), truncated
+
+
 def form_dict(poly):
     """{monomial text: coefficient} with '' for the constant term."""
     out = {}
@@ -52,6 +77,13 @@ def check_affine(report, rule, where, label, poly, expected, vocabulary, clause=
     if not isinstance(poly, Poly):
         raise AnalysisError(f"{label}: result is not numeric ({type(poly).__name__})")
     inner, floored = unwrap_floor(poly)
+    early = []
+    for m, c in inner.terms.items():
+        for a, e in m:
+            if a.startswith("floor[") and a not in vocabulary and inner_of(a) is not None:
+                if len(m) > 1 or e != 1 or c != 1:
+                    early.append(a[:120])
+    inner, _trunc = flatten_floors(inner, vocabulary)
     atoms = base_atoms(inner, vocabulary)
     unknown = sorted(a for a in atoms if a not in vocabulary)
     if unknown:
@@ -68,7 +100,10 @@ def check_affine(report, rule, where, label, poly, expected, vocabulary, clause=
         detail["coefficients_that_differ"] = diffs
     if note:
         detail["note"] = note
-    ok = not diffs
+    if early:
+        detail["truncated_before_scaling"] = early
+        detail["why"] = "a factor is truncated to an integer and then multiplied: the lost fraction is scaled up"
+    ok = not diffs and not early
     if want_floor is not None and ok:
         needs = inner.isfloat or any(c.denominator != 1 for c in inner.terms.values()) \
             or any(e < 0 for m in inner.terms for _, e in m)
